@@ -639,7 +639,7 @@ def na_index(eng, callee, a, m, fc):
     return Ref(lambda: v[i], lambda x: v.__setitem__(i, x))
 
 
-@ext(r'^geometry::point_construction::<impl OPoint<.*>>::(\w+)$|^OPoint::<.*>::(\w+)$|^geometry::point::<impl OPoint<.*>>::(\w+)|^<OPoint<.*> as From<.*>>::(from)$|^geometry::point_\w+::<impl \w+(?:<.*>)? for OPoint<.*>>::(\w+)')
+@ext(r'^geometry::point_construction::<impl OPoint<.*>>::(\w+)$|^OPoint::<.*>::(\w+)$|^geometry::point::<impl OPoint<.*>>::(\w+)|^<OPoint<.*> as From<.*>>::(from)$|^<Matrix<.*> as Into<(?:[\w:]*::)?OPoint<.*>>>::(into)$|^geometry::point_\w+::<impl \w+(?:<.*>)? for OPoint<.*>>::(\w+)')
 def point_method(eng, callee, a, m, fc):
     name = next(g for g in m.groups() if g)
     if name == 'new':
@@ -647,7 +647,7 @@ def point_method(eng, callee, a, m, fc):
     if name == 'origin':
         mm = re.search(r'Const<(\d+)>', callee)
         return pt([zero() for _ in range(int(mm.group(1)))])
-    if name == 'from':
+    if name in ('from', 'into'):
         return pt(list(vec_of(a[0])))
     if name in ('coords',):
         return list(vec_of(a[0]))
@@ -894,3 +894,19 @@ def trimesh_method(eng, callee, a, m, fc):
     if ob:
         return ob(eng, callee, a)
     raise Unsupported('TriMesh method ' + name + ' (parry; needs a contract observer)')
+
+
+@ext(r'^<\w+ as (?:[\w:]*::)?AbstractRotation<f64, \d>>::(\w+)$')
+def abstract_rotation(eng, callee, a, m, fc):
+    name = m.group(1)
+    if name in ('transform_point',):
+        return pt(rot_apply(a[0], vec_of(a[1])))
+    if name in ('transform_vector',):
+        return rot_apply(a[0], vec_of(a[1]))
+    if name == 'inverse_transform_point':
+        return pt(rot_apply(rot_inv(a[0]), vec_of(a[1])))
+    if name == 'inverse_transform_vector':
+        return rot_apply(rot_inv(a[0]), vec_of(a[1]))
+    if name == 'inverse':
+        return rot_inv(a[0])
+    raise Unsupported('AbstractRotation::' + name)
